@@ -671,6 +671,9 @@ package process
 //@   loop[C09] 1 invariant readyEnv(dom(labelledTypesEnv), vals(labelledTypesEnv)) && sigmaReady(functionDefinitionsEnv, dom(labelledTypesEnv), vals(labelledTypesEnv))
 //@   loop[C09] 1 invariant procsReady(processes, dom(labelledTypesEnv), vals(labelledTypesEnv)) && namesReady(assumedFreeNames, dom(labelledTypesEnv), vals(labelledTypesEnv))
 //@   callsite[C09] C09.tpNames process.produceNameTypesCtx#1: namesReady(arg0, dom(labelledTypesEnv), vals(labelledTypesEnv))
+// C06 at top-level processes: every free name's mode can be down-shifted to the mode of the process's type. The
+// checker does not look at this (an acknowledged todo in the code): known finding K1.
+//@   callsite[C09] C06.sitePrc process.Form.typecheckForm#1: forall k int :: 0 <= k && k < len(freeNames) ==> ge(modeOf(freeNames[k].Type), modeOf(providerType))
 
 // ---- the entry point and its worker: exactly one verdict is handed over, after which the worker does nothing more
 //@ contract assignTypesToProcessProviders
